@@ -96,7 +96,7 @@ Isolation == \A i \in DOMAIN out : out[i] = MechOutcome(e, Ds[i])
 
 \* the subject field followed by a plain field so that tie-breaking is exercised
 ItemOf(cfg) == [kind |-> "struct",
-                variants |-> <<[shape |-> "named", fields |-> <<[cmp |-> cfg], [cmp |-> PlainCfg]>>]>>]
+                variants |-> <<[shape |-> "named", fields |-> <<[cmp |-> cfg, ty |-> "eq"], [cmp |-> PlainCfg, ty |-> "eq"]>>]>>]
 \* all 6 subject values, and a differing trailing field behind two subject values that share a key
 VSmall == {[v |-> 1, f |-> <<a, 0>>] : a \in Val} \cup {[v |-> 1, f |-> <<a, 1>>] : a \in {0, 1}}
 VTrip  == VSmall
